@@ -153,18 +153,41 @@ func (C08Checker) Check(s *Step) []*Violation {
 					Detail: fmt.Sprintf("device carries %s=%s (case %s of choice %s) although no live intent contributes to that choice; live=%s", p, dev[p], sl.cas, sl.key(), m.Key())})
 			case w.cas != sl.cas:
 				t := tag(sl, w)
-			REQ:
+				// known structural weaknesses are told apart from everything else
+				hadPath, inCase := false, false
 				for _, is := range s.Op.Intents {
 					if old := s.ModelPre.Live[is.Owner]; old != nil {
+						if _, had := old.Defined[p]; had {
+							hadPath = true
+						}
 						for q := range old.Defined {
 							for _, qs := range choiceSlots(q) {
 								if qs.key() == sl.key() && qs.cas == sl.cas {
-									t += ":requester-was-in-losing-case"
-									break REQ
+									inCase = true
 								}
 							}
 						}
 					}
+				}
+				casesSeen := map[string]bool{}
+				for _, mm := range []*Model{s.ModelPre, m} {
+					for _, li := range mm.Live {
+						for q := range li.Defined {
+							for _, qs := range choiceSlots(q) {
+								if qs.key() == sl.key() {
+									casesSeen[qs.cas] = true
+								}
+							}
+						}
+					}
+				}
+				switch {
+				case hadPath:
+					t += ":requester-had-loser-path"
+				case inCase && len(casesSeen) >= 3:
+					t += ":requester-was-in-losing-case:three-cases"
+				case inCase:
+					t += ":requester-was-in-losing-case"
 				}
 				vs = append(vs, &Violation{Clause: "losing-case-present", Sig: "losing-case-present:" + t + ":" + SchemaClass(p),
 					Detail: fmt.Sprintf("device carries %s=%s of case %s, but the highest-precedence contribution to choice %s is in case %s (priority %d); live=%s", p, dev[p], sl.cas, sl.key(), w.cas, w.prio, m.Key())})
